@@ -27,9 +27,22 @@ def _single_target_assign(stmts):
     return a[0] if len(a) == 1 and len(stmts) <= 2 else None
 
 
-def _canon_shrinkage(value):
-    """Canonical text of a shrinkage expression with its single count variable renamed to n."""
-    names = {x.id for x in ast.walk(value) if isinstance(x, ast.Name)} - {"np", "numpy", "math"}
+def _canon_shrinkage(value, inline=None):
+    """Canonical text of a shrinkage expression with its single count variable renamed to n (temporaries bound once,
+    such as `inv = 1 / nlive`, are substituted first)."""
+    import copy as _copy
+
+    inline = inline or {}
+
+    class _Sub(ast.NodeTransformer):
+        def visit_Name(self, n_):
+            # only pieces of the formula itself (a quotient / reciprocal), not where the counts come from
+            if isinstance(n_.ctx, ast.Load) and n_.id in inline and any((isinstance(x_, ast.BinOp) and isinstance(x_.op, ast.Div)) or (isinstance(x_, ast.Call) and ast.unparse(x_.func).split(".")[-1] in ("reciprocal", "log1p")) for x_ in ast.walk(inline[n_.id])):
+                return _Sub().visit(_copy.deepcopy(inline[n_.id]))
+            return n_
+
+    value = _Sub().visit(_copy.deepcopy(value))
+    names = {x.id for x in ast.walk(value) if isinstance(x, ast.Name)} - {"np", "numpy", "math", "float"}
     if len(names) != 1:
         return None
     return canon(value, rename={names.pop(): "n"})
@@ -52,7 +65,7 @@ def shrinkage_branches(fi):
         if mode in out or (var is not None and st.targets[0].id != var):
             return {}, None
         var = st.targets[0].id
-        out[mode] = (_canon_shrinkage(st.value), st)
+        out[mode] = (_canon_shrinkage(st.value, single_assignments(fi.node)), st)
     return out, var
 
 
@@ -200,6 +213,30 @@ def run(ctx):
     ctx.ob("R-SIB", "C02.5", inc, "evidence accumulated in log space: logZ = logaddexp(logZ, weight)", ok_acc, f"{len(ipaths)} path(s)")
     ctx.ob("R-SIB", "C02.5", inc, "rectangle rule: weight = log X_{i-1} + logL + log(1 - t)", ok_rect, f"`{seen_w}`")
     ctx.floor("C02.5", 5)
+
+    # ---- C02.8 live counts are divided in floating point -------------------------------------------------------------
+    # the shrinkage per iteration is -1/N or -log1p(1/N) for the live count N, which the integrator keeps as *integers*
+    # (state.nlive is a list of ints, compute_weights accepts that schedule): np.reciprocal of an integer array, `//`
+    # and np.floor_divide are integer divisions (1/N == 0 for N > 1), so every quotient on this path must be a true division
+    # or carry a float dtype
+    n_div = 0
+    for f_ in prog.all_functions:
+        if f_.module.name not in ("nessai.evidence", "nessai.posterior"):
+            continue
+        for n_ in walk_no_nested(f_.node):
+            if isinstance(n_, ast.Call) and (call_name(n_) or "").split(".")[-1] in ("reciprocal", "floor_divide"):
+                n_div += 1
+                kw_ = {k_.arg: k_.value for k_ in n_.keywords}
+                a0_ = n_.args[0] if n_.args else None
+                flt_ = (call_name(n_) or "").endswith("reciprocal") and (("dtype" in kw_ and canon(kw_["dtype"]) in ("float", "float64", "double", "longdouble")) or (isinstance(a0_, ast.Call) and (((call_name(a0_) or "").split(".")[-1] in ("array", "asarray") and any(k_.arg == "dtype" and canon(k_.value) in ("float", "float64") for k_ in a0_.keywords)) or (isinstance(a0_.func, ast.Attribute) and a0_.func.attr == "astype" and a0_.args and canon(a0_.args[0]) in ("float", "float64")))))
+                ctx.ob("R-API", "C02.8", f_, "a quotient of live counts is a true (floating-point) division", flt_, f"`{src(n_)[:70]}`: integer input gives integer division (1/N == 0 for N > 1)", node=n_)
+            elif isinstance(n_, ast.BinOp) and isinstance(n_.op, ast.FloorDiv) and any(isinstance(x_, ast.Name) and "nlive" in x_.id for x_ in ast.walk(n_)):
+                n_div += 1
+                ctx.ob("R-API", "C02.8", f_, "a quotient of live counts is a true (floating-point) division", False, f"`{src(n_)[:70]}` floors the quotient", node=n_)
+            elif isinstance(n_, ast.BinOp) and isinstance(n_.op, ast.Div) and any(isinstance(x_, ast.Name) and "nlive" in x_.id for x_ in ast.walk(n_.right)):
+                n_div += 1
+                ctx.ob("R-API", "C02.8", f_, "a quotient of live counts is a true (floating-point) division", True, f"`{src(n_)[:70]}`", node=n_)
+    ctx.floor("C02.8", 4)
 
     # ---- C02.6 volumes decrease: order of the updates in increment -------------
     fa = FA(inc)
